@@ -125,7 +125,7 @@ def impl(case):
                 nd.append([list(sh), "raised " + type(e).__name__ + ": " + str(e)[:60]])
         res["nd"] = nd
         # a broadcastable mix whose sizes happen to coincide: the first input as a column (3, 1), the others as rows (3,): every pairing,
-        # i.e. the same values as for the inputs broadcast beforehand (shapes may stay un-broadcast where an output ignores the column)
+        # i.e. the same values and shapes as for the inputs broadcast beforehand
         if len(cols) >= 2:
             try:
                 mix = [cols[0].reshape(3, 1)] + [c.copy() for c in cols[1:]]
@@ -133,7 +133,8 @@ def impl(case):
                 rm = rm if isinstance(rm, tuple) else (rm,)
                 rf = m(*[np.array(x) for x in np.broadcast_arrays(*mix)])
                 rf = rf if isinstance(rf, tuple) else (rf,)
-                okm = all(np.array_equal(np.broadcast_to(np.asarray(getattr(x, "value", x)), (3, 3)), np.asarray(getattr(y, "value", y)), equal_nan=True)
+                # (every output in the common shape: one that depends on a single input is broadcast too)
+                okm = all(np.shape(x) == (3, 3) and np.array_equal(np.asarray(getattr(x, "value", x)), np.asarray(getattr(y, "value", y)), equal_nan=True)
                           for x, y in zip(rm, rf))
                 res["mix"] = "ok" if okm else "differs: shapes %s" % [list(np.shape(x)) for x in rm]
             except Exception as e:
